@@ -12,16 +12,29 @@ open YaegiVerif.Expected.C06 (facts)
 @[simp] theorem facts_prependBuiltin : facts.prependBuiltin = true := rfl
 @[simp] theorem facts_argsByRefCall : facts.argsByRefCall = false := rfl
 @[simp] theorem facts_argsByRefBin : facts.argsByRefBin = false := rfl
+@[simp] theorem facts_deferredProtected : facts.deferredProtected = true := rfl
 @[simp] theorem facts_recoverReadsAnc : facts.recoverReadsAnc = true := rfl
 @[simp] theorem facts_recoverClears : facts.recoverClears = true := rfl
-@[simp] theorem facts_panicPassesValue : facts.panicPassesValue = true := rfl
+@[simp] theorem facts_panicBoxed : facts.panicBoxed = false := rfl
+@[simp] theorem facts_panicDeferrable : facts.panicDeferrable = true := rfl
+@[simp] theorem facts_closureAncIsClone : facts.closureAncIsClone = true := rfl
+@[simp] theorem facts_closureLocksDefiner : facts.closureLocksDefiner = true := rfl
 @[simp] theorem facts_executeRecovers : facts.executeRecovers = true := rfl
 @[simp] theorem facts_executeCarriesValue : facts.executeCarriesValue = true := rfl
 @[simp] theorem facts_exitSteps :
-    facts.exitSteps = [.lock, .assignRecovered, .runDeferred, .ifRecovered, .unlock] := rfl
+    facts.exitSteps = [.lock, .assignRecovered, .unlock, .runDeferred, .lock, .ifRecovered, .unlock] := rfl
 @[simp] theorem facts_ifSteps : facts.ifSteps = [.log, .unlock, .repanic] := rfl
 
-/-- what runCfg's deferred function does after the loop over f.deferred (expected statement order) -/
+/-- `_panic` raises the value itself -/
+@[simp] theorem raised_facts (v : Val) : raised facts v = v := rfl
+@[simp] theorem reraised_facts (v : Val) : reraised facts v = v := rfl
+@[simp] theorem heldAnc_facts (self : Frame) : heldAnc facts self = { self with recovered := none } := rfl
+@[simp] theorem heldBack_facts (self anc' : Frame) : heldBack facts self anc' = { self with res := anc'.res } := rfl
+
+@[simp] theorem emit_hung (w : World) (e : Event) : (w.emit e).hung = w.hung := rfl
+
+/-- what runCfg's deferred function does after the loop over f.deferred (expected statement order):
+    the frame is locked again, a panic still recorded in `f.recovered` is raised again, the lock released -/
 def finishY (r : Sig × Frame × World) : Sig × Frame × World :=
   match r.1 with
   | .normal =>
@@ -29,31 +42,33 @@ def finishY (r : Sig × Frame × World) : Sig × Frame × World :=
   | .panic q => (.panic q, r.2.1, r.2.2)
   | .fuel => (.fuel, r.2.1, r.2.2)
 
+/-- runCfg's deferred function with the expected statement order: the panic of the body is recorded, the frame
+    lock is released, the deferred calls run, then `finishY` -/
 theorem exitY_expected (cy : CallFn) (sig : Sig) (self : Frame) (w : World) :
     exitY facts cy sig self w =
       match sig with
       | .fuel => (.fuel, self, w)
-      | _ => finishY (runEntriesY cy self.deferred { self with locked := true, recovered := pendingOf sig } w) := by
+      | _ => finishY (runEntriesY facts cy self.deferred { self with locked := false, recovered := pendingOf sig } w) := by
   cases sig with
   | fuel => rfl
   | normal =>
     simp only [exitY, facts_exitSteps, runExitSteps, runFlatStep, pendingOf]
-    generalize runEntriesY cy self.deferred _ w = r
+    generalize runEntriesY facts cy self.deferred _ w = r
     obtain ⟨s, self', w'⟩ := r
     cases s with
     | normal =>
       simp only [finishY]
-      cases h : self'.recovered <;> simp [runFlat, runFlatStep, h]
+      cases h : self'.recovered <;> simp [runFlat, runFlatStep]
     | panic q => simp [finishY]
     | fuel => simp [finishY]
   | panic v =>
     simp only [exitY, facts_exitSteps, runExitSteps, runFlatStep, pendingOf]
-    generalize runEntriesY cy self.deferred _ w = r
+    generalize runEntriesY facts cy self.deferred _ w = r
     obtain ⟨s, self', w'⟩ := r
     cases s with
     | normal =>
       simp only [finishY]
-      cases h : self'.recovered <;> simp [runFlat, runFlatStep, h]
+      cases h : self'.recovered <;> simp [runFlat, runFlatStep]
     | panic q => simp [finishY]
     | fuel => simp [finishY]
 
@@ -79,84 +94,113 @@ theorem storeArg_val (x : Arg) (a : Int) (self : Frame) :
   cases x <;> simp [storeArg, evalArg]
 
 theorem body_sim (cy : CallFn) (cs : Spec.CallFn) (hs : Sim cy cs) (hn : Spec.NoneStays cs) :
-    ∀ (code : Code) (seen : Bool) (a : Int) (anc self : Frame) (w : World),
-      domBody code seen = true → self.recovered = none → entriesOK self.deferred = true →
-      (self.deferred ≠ [] → seen = true) →
+    ∀ (code : Code) (a : Int) (anc self : Frame) (w : World),
+      Dom code = true → self.recovered = none → (∀ e ∈ self.deferred, e.ok = true) →
       execBodyY facts cy code a anc self w =
         liftBody anc self (Spec.execBody cs code a anc.recovered anc.res ⟨self.deferred, self.res⟩ w) ∧
-      entriesOK (Spec.execBody cs code a anc.recovered anc.res ⟨self.deferred, self.res⟩ w).2.2.2.1.defers = true := by
+      (∀ e ∈ (Spec.execBody cs code a anc.recovered anc.res ⟨self.deferred, self.res⟩ w).2.2.2.1.defers, e.ok = true) := by
   intro code
   induction code with
   | done =>
-    intro seen a anc self w _ _ hok _
+    intro a anc self w _ _ hok
     exact ⟨rfl, hok⟩
   | print s k ih =>
-    intro seen a anc self w hd hrec hok hseen
+    intro a anc self w hd hrec hok
     simp only [execBodyY, Spec.execBody]
-    exact ih seen a anc self _ (by simpa [domBody] using hd) hrec hok hseen
+    exact ih a anc self _ (by simpa [Dom] using hd) hrec hok
   | printArg k ih =>
-    intro seen a anc self w hd hrec hok hseen
+    intro a anc self w hd hrec hok
     simp only [execBodyY, Spec.execBody]
-    exact ih seen a anc self _ (by simpa [domBody] using hd) hrec hok hseen
+    exact ih a anc self _ (by simpa [Dom] using hd) hrec hok
   | probe t k ih =>
-    intro seen a anc self w hd hrec hok hseen
+    intro a anc self w hd hrec hok
     simp only [execBodyY, Spec.execBody]
-    exact ih seen a anc self _ (by simpa [domBody] using hd) hrec hok hseen
+    exact ih a anc self _ (by simpa [Dom] using hd) hrec hok
   | panic v k _ =>
-    intro seen a anc self w _ _ hok _
+    intro a anc self w _ _ hok
     exact ⟨rfl, hok⟩
   | setRes n k ih =>
-    intro seen a anc self w hd hrec hok hseen
+    intro a anc self w hd hrec hok
     simp only [execBodyY, Spec.execBody]
-    exact ih seen a anc { self with res := n } w (by simpa [domBody] using hd) hrec hok hseen
+    exact ih a anc { self with res := n } w (by simpa [Dom] using hd) hrec hok
   | setOuter n k ih =>
-    intro seen a anc self w hd hrec hok hseen
+    intro a anc self w hd hrec hok
     simp only [execBodyY, Spec.execBody]
-    exact ih seen a { anc with res := n } self w (by simpa [domBody] using hd) hrec hok hseen
+    exact ih a { anc with res := n } self w (by simpa [Dom] using hd) hrec hok
   | recover sh k ih =>
-    intro seen a anc self w hd hrec hok hseen
+    intro a anc self w hd hrec hok
     obtain ⟨ad, ar, ares, al⟩ := anc
     cases ar with
     | none =>
       simp only [execBodyY, Spec.execBody, facts_recoverReadsAnc, facts_recoverClears, if_true, Bool.and_self,
         Bool.true_and, Bool.not_true, Bool.false_and, Option.isSome_none, Bool.false_eq_true, if_false]
-      exact ih seen a ⟨ad, none, ares, al⟩ self _ (by simpa [domBody] using hd) hrec hok hseen
+      exact ih a ⟨ad, none, ares, al⟩ self _ (by simpa [Dom] using hd) hrec hok
     | some v =>
       simp only [execBodyY, Spec.execBody, facts_recoverReadsAnc, facts_recoverClears, if_true, Bool.and_self,
-        Bool.true_and, Bool.not_true, Bool.false_and, Option.isSome_some, Bool.false_eq_true, if_false]
-      exact ih seen a ⟨ad, none, ares, al⟩ self _ (by simpa [domBody] using hd) hrec hok hseen
-  | repanic k _ =>
-    intro seen a anc self w hd
-    simp [domBody] at hd
+        Bool.not_true, Bool.false_and, Option.isSome_some, Bool.false_eq_true, if_false]
+      exact ih a ⟨ad, none, ares, al⟩ self _ (by simpa [Dom] using hd) hrec hok
+  | recoverIs v' k ih =>
+    intro a anc self w hd hrec hok
+    obtain ⟨ad, ar, ares, al⟩ := anc
+    cases ar with
+    | none =>
+      simp only [execBodyY, Spec.execBody, facts_recoverReadsAnc, facts_recoverClears, if_true, Bool.and_self,
+        Bool.true_and, Bool.not_true, Bool.false_and, Option.isSome_none, Bool.false_eq_true, if_false]
+      exact ih a ⟨ad, none, ares, al⟩ self _ (by simpa [Dom] using hd) hrec hok
+    | some v =>
+      simp only [execBodyY, Spec.execBody, facts_recoverReadsAnc, facts_recoverClears, if_true, Bool.and_self,
+        Bool.not_true, Bool.false_and, Option.isSome_some, Bool.false_eq_true, if_false]
+      exact ih a ⟨ad, none, ares, al⟩ self _ (by simpa [Dom] using hd) hrec hok
+  | repanic k ih =>
+    intro a anc self w hd hrec hok
+    obtain ⟨ad, ar, ares, al⟩ := anc
+    cases ar with
+    | none =>
+      simp only [execBodyY, Spec.execBody, facts_recoverReadsAnc, facts_recoverClears, if_true, Bool.and_self,
+        Bool.true_and, Bool.not_true, Bool.false_and, Option.isSome_none, Bool.false_eq_true, if_false]
+      exact ih a ⟨ad, none, ares, al⟩ self _ (by simpa [Dom] using hd) hrec hok
+    | some v =>
+      simp only [execBodyY, Spec.execBody, facts_recoverReadsAnc, facts_recoverClears, if_true, Bool.and_self,
+        Bool.not_true, Bool.false_and, Option.isSome_some, Bool.false_eq_true, if_false, reraised_facts]
+      exact ⟨rfl, hok⟩
   | deferBin s x k ih =>
-    intro seen a anc self w hd hrec hok hseen
-    simp only [domBody] at hd
+    intro a anc self w hd hrec hok
+    simp only [Dom] at hd
     obtain ⟨sd, sr, sres, sl⟩ := self
     simp only [execBodyY, Spec.execBody, facts_argsByRefBin, storeArg_val, evalArg_eq, pushEntry, Spec.push, facts_prependCallBin, if_true]
-    exact ih true a anc ⟨⟨.bin s, .val (Spec.evalArg x a ⟨sd, sres⟩)⟩ :: sd, sr, sres, sl⟩ w hd hrec
-      (entriesOK_cons _ _ (by simp [Entry.ok]) (by simp [Entry.quiet]) hok) (fun _ => rfl)
+    exact ih a anc ⟨⟨.bin s, .val (Spec.evalArg x a ⟨sd, sres⟩)⟩ :: sd, sr, sres, sl⟩ w hd hrec
+      (allOK_cons _ _ (by simp [Entry.ok]) hok)
   | deferDel t k ih =>
-    intro seen a anc self w hd hrec hok hseen
-    simp only [domBody] at hd
+    intro a anc self w hd hrec hok
+    simp only [Dom] at hd
     obtain ⟨sd, sr, sres, sl⟩ := self
     simp only [execBodyY, Spec.execBody, pushEntry, Spec.push, facts_prependBuiltin, if_true]
-    exact ih true a anc ⟨⟨.del t, .val 0⟩ :: sd, sr, sres, sl⟩ w hd hrec
-      (entriesOK_cons _ _ (by simp [Entry.ok]) (by simp [Entry.quiet]) hok) (fun _ => rfl)
+    exact ih a anc ⟨⟨.del t, .val 0⟩ :: sd, sr, sres, sl⟩ w hd hrec
+      (allOK_cons _ _ (by simp [Entry.ok]) hok)
+  | deferPanic v k ih =>
+    intro a anc self w hd hrec hok
+    simp only [Dom] at hd
+    obtain ⟨sd, sr, sres, sl⟩ := self
+    simp only [execBodyY, Spec.execBody, pushEntry, Spec.push, facts_prependBuiltin, facts_panicDeferrable, if_true]
+    exact ih a anc ⟨⟨.pan v, .val 0⟩ :: sd, sr, sres, sl⟩ w hd hrec
+      (allOK_cons _ _ (by simp [Entry.ok]) hok)
   | defer f x k _ ih =>
-    intro seen a anc self w hd hrec hok hseen
-    simp only [domBody, Bool.and_eq_true, Bool.not_eq_true', Bool.or_eq_true] at hd
-    obtain ⟨⟨hf, hq⟩, hk⟩ := hd
+    intro a anc self w hd hrec hok
+    simp only [Dom, Bool.and_eq_true] at hd
     obtain ⟨sd, sr, sres, sl⟩ := self
     simp only [execBodyY, Spec.execBody, facts_argsByRefCall, storeArg_val, evalArg_eq, pushEntry, Spec.push, facts_prependCall, if_true]
-    refine ih true a anc ⟨⟨.src f, .val (Spec.evalArg x a ⟨sd, sres⟩)⟩ :: sd, sr, sres, sl⟩ w hk hrec
-      (entriesOK_cons _ _ (by simpa [Entry.ok, Dom] using hf) ?_ hok) (fun _ => rfl)
-    intro hne
-    have := hseen hne
-    subst this
-    simpa [Entry.quiet] using hq
+    exact ih a anc ⟨⟨.src f, .val (Spec.evalArg x a ⟨sd, sres⟩)⟩ :: sd, sr, sres, sl⟩ w hd.2 hrec
+      (allOK_cons _ _ (by simpa [Entry.ok] using hd.1) hok)
+  | deferVar f x k _ ih =>
+    intro a anc self w hd hrec hok
+    simp only [Dom, Bool.and_eq_true] at hd
+    obtain ⟨sd, sr, sres, sl⟩ := self
+    simp only [execBodyY, Spec.execBody, facts_argsByRefCall, storeArg_val, evalArg_eq, pushEntry, Spec.push, facts_prependCall, if_true]
+    exact ih a anc ⟨⟨.held f, .val (Spec.evalArg x a ⟨sd, sres⟩)⟩ :: sd, sr, sres, sl⟩ w hd.2 hrec
+      (allOK_cons _ _ (by simpa [Entry.ok] using hd.1) hok)
   | call f x sh k _ ih =>
-    intro seen a anc self w hd hrec hok hseen
-    simp only [domBody, Bool.and_eq_true] at hd
+    intro a anc self w hd hrec hok
+    simp only [Dom, Bool.and_eq_true] at hd
     obtain ⟨sd, sr, sres, sl⟩ := self
     simp only at hrec
     subst hrec
@@ -170,7 +214,7 @@ theorem body_sim (cy : CallFn) (cs : Spec.CallFn) (hs : Sim cy cs) (hn : Spec.No
     cases sig with
     | normal =>
       simp only [liftAnc]
-      exact ih seen a anc ⟨sd, none, res', sl⟩ _ hd.2 rfl hok hseen
+      exact ih a anc ⟨sd, none, res', sl⟩ _ hd.2 rfl hok
     | panic v => exact ⟨rfl, hok⟩
     | fuel => exact ⟨rfl, hok⟩
 
@@ -181,52 +225,63 @@ def finY (r : Sig × Frame × World) : Sig × Int × World :=
 def finS (r : Sig × Option Val × Int × World) : Sig × Int × World :=
   (Spec.finish r.1 r.2.1, r.2.2.1, r.2.2.2)
 
-theorem entriesOK_tail (e : Entry) (es : List Entry) (h : entriesOK (e :: es) = true) :
-    e.ok = true ∧ entriesOK es = true ∧ (es ≠ [] → e.quiet = true) := by
-  cases es with
-  | nil => exact ⟨by simpa [entriesOK] using h, rfl, fun h => absurd rfl h⟩
-  | cons e' es' =>
-    simp only [entriesOK, Bool.and_eq_true] at h
-    exact ⟨h.1.1, h.2, fun _ => h.1.2⟩
-
-/-- the loop over f.deferred against the specification's LIFO run: identical as long as only the entry
-    called last (the first one registered) may panic -/
-theorem entries_sim (cy : CallFn) (cs : Spec.CallFn) (hs : Sim cy cs) (hq : Spec.Quiet cs) :
-    ∀ (es : List Entry) (self : Frame) (w : World), entriesOK es = true →
-      finY (runEntriesY cy es self w) = finS (Spec.runDefers cs es self.recovered self.res w) := by
+/-- the loop over f.deferred against the specification's LIFO run: every entry is called exactly once, in
+    order; a panic raised by an entry becomes the current panic of the frame and the loop goes on -/
+theorem entries_sim (cy : CallFn) (cs : Spec.CallFn) (hs : Sim cy cs) (hc : Spec.CtxFree cs) :
+    ∀ (es : List Entry) (self : Frame) (w : World), (∀ e ∈ es, e.ok = true) → self.locked = false →
+      finY (runEntriesY facts cy es self w) = finS (Spec.runDefers cs es self.recovered self.res w) := by
   intro es
   induction es with
   | nil =>
-    intro self w _
+    intro self w _ _
     obtain ⟨sd, sr, sres, sl⟩ := self
     cases sr <;> rfl
   | cons e es ih =>
-    intro self w hok
-    obtain ⟨hek, hes, heq⟩ := entriesOK_tail e es hok
+    intro self w hok hl
+    have hek := hok e (by simp)
+    have hes : ∀ x ∈ es, x.ok = true := fun x hx => hok x (by simp [hx])
     obtain ⟨callee, arg⟩ := e
     cases callee with
-    | bin s => simp only [runEntriesY, Spec.runDefers]; exact ih self _ hes
-    | del t => simp only [runEntriesY, Spec.runDefers]; exact ih self _ hes
+    | bin s => simp only [runEntriesY, Spec.runDefers]; exact ih self _ hes hl
+    | del t => simp only [runEntriesY, Spec.runDefers]; exact ih self _ hes hl
+    | pan v =>
+      simp only [runEntriesY, Spec.runDefers, facts_deferredProtected, if_true, raised_facts]
+      exact ih { self with recovered := some v } w hes hl
     | src c =>
-      have hc : Dom c = true := by
+      have hcd : Dom c = true := by
         simp only [Entry.ok, Bool.and_eq_true] at hek
         exact hek.1
-      simp only [runEntriesY, Spec.runDefers]
-      rw [hs c _ self w hc]
-      have hqc := hq c (arg.get self.res) self.recovered self.res w
-      generalize cs c (arg.get self.res) self.recovered self.res w = r at hqc ⊢
+      simp only [runEntriesY, Spec.runDefers, facts_deferredProtected, if_true]
+      rw [hs c _ self w hcd]
+      generalize cs c (arg.get self.res) self.recovered self.res w = r
       obtain ⟨sig, c', res', rr, w'⟩ := r
       cases sig with
       | normal =>
         simp only [liftAnc]
-        exact ih { self with recovered := c', res := res' } w' hes
+        exact ih { self with recovered := c', res := res' } w' hes hl
       | fuel => rfl
       | panic q =>
-        cases es with
-        | nil => rfl
-        | cons e' es' =>
-          have hm : mayPanic c = false := by simpa [Entry.quiet] using heq (by simp)
-          exact absurd rfl (hqc q hm)
+        simp only [liftAnc]
+        exact ih { self with recovered := some q, res := res' } w' hes hl
+    | held c =>
+      have hcd : Dom c = true ∧ directRecover c = false := by
+        simp only [Entry.ok, Bool.and_eq_true, Bool.not_eq_true'] at hek
+        exact hek.1
+      simp only [runEntriesY, Spec.runDefers, facts_deferredProtected, facts_closureLocksDefiner, if_true,
+        heldAnc_facts, heldBack_facts, Bool.true_and]
+      rw [hs c _ _ w hcd.1, hc c _ self.recovered self.res w hcd.2]
+      generalize cs c (arg.get self.res) none self.res w = r
+      obtain ⟨sig, c', res', rr, w'⟩ := r
+      cases sig with
+      | normal =>
+        simp only [liftAnc, Spec.withCtx, hl, Bool.false_eq_true, if_false]
+        have h2 := ih { self with res := res' } w' hes hl
+        simp only [hl] at h2
+        exact h2
+      | fuel => rfl
+      | panic q =>
+        simp only [liftAnc, Spec.withCtx]
+        exact ih { self with recovered := some q, res := res' } w' hes hl
 
 theorem execFn_sim : ∀ n, Sim (execFnY facts n) (Spec.execFn n) := by
   intro n
@@ -235,8 +290,8 @@ theorem execFn_sim : ∀ n, Sim (execFnY facts n) (Spec.execFn n) := by
   | succ n ih =>
     intro code a anc w hd
     simp only [execFnY, Spec.execFn]
-    obtain ⟨hb, hok⟩ := body_sim (execFnY facts n) (Spec.execFn n) ih (Spec.execFn_none n) code false a anc
-      Frame.fresh w hd rfl rfl (fun h => absurd rfl h)
+    obtain ⟨hb, hok⟩ := body_sim (execFnY facts n) (Spec.execFn n) ih (Spec.execFn_none n) code a anc
+      Frame.fresh w hd rfl (by simp [Frame.fresh])
     rw [hb]
     simp only [Frame.fresh] at hok ⊢
     generalize Spec.execBody (Spec.execFn n) code a anc.recovered anc.res ⟨[], 0⟩ w = rb at hok ⊢
@@ -245,18 +300,18 @@ theorem execFn_sim : ∀ n, Sim (execFnY facts n) (Spec.execFn n) := by
     cases sig with
     | fuel => rfl
     | normal =>
-      have he := entries_sim (execFnY facts n) (Spec.execFn n) ih (Spec.execFn_quiet n) act.defers
-        ⟨act.defers, pendingOf .normal, act.res, true⟩ w' hok
+      have he := entries_sim (execFnY facts n) (Spec.execFn n) ih (Spec.execFn_ctxfree n) act.defers
+        ⟨act.defers, pendingOf .normal, act.res, false⟩ w' hok rfl
       simp only [finY, finS] at he
-      generalize runEntriesY (execFnY facts n) act.defers _ w' = ry at he ⊢
+      generalize runEntriesY facts (execFnY facts n) act.defers _ w' = ry at he ⊢
       generalize Spec.runDefers (Spec.execFn n) act.defers _ act.res w' = rs at he ⊢
       simp only [Prod.mk.injEq] at he
       simp only [liftAnc, he.1, he.2.1, he.2.2]
     | panic v =>
-      have he := entries_sim (execFnY facts n) (Spec.execFn n) ih (Spec.execFn_quiet n) act.defers
-        ⟨act.defers, pendingOf (.panic v), act.res, true⟩ w' hok
+      have he := entries_sim (execFnY facts n) (Spec.execFn n) ih (Spec.execFn_ctxfree n) act.defers
+        ⟨act.defers, pendingOf (.panic v), act.res, false⟩ w' hok rfl
       simp only [finY, finS] at he
-      generalize runEntriesY (execFnY facts n) act.defers _ w' = ry at he ⊢
+      generalize runEntriesY facts (execFnY facts n) act.defers _ w' = ry at he ⊢
       generalize Spec.runDefers (Spec.execFn n) act.defers _ act.res w' = rs at he ⊢
       simp only [Prod.mk.injEq] at he
       simp only [liftAnc, he.1, he.2.1, he.2.2]
@@ -282,11 +337,29 @@ theorem execBodyY_anc (F : UnwindFacts) (cf : CallFn) :
     | panic v => exact ⟨rfl, rfl⟩
     | fuel => exact ⟨rfl, rfl⟩
   | defer f x k _ ih => intros; simp only [execBodyY]; apply ih
+  | deferVar f x k _ ih => intros; simp only [execBodyY]; apply ih
   | deferBin s x k ih => intros; simp only [execBodyY]; apply ih
   | deferDel t k ih => intros; simp only [execBodyY]; apply ih
+  | deferPanic v k ih =>
+    intro a anc self w
+    simp only [execBodyY]
+    cases F.panicDeferrable
+    · exact ⟨rfl, rfl⟩
+    · simp only [if_true]; apply ih
   | probe t k ih => intros; simp only [execBodyY]; apply ih
   | panic v k _ => intros; exact ⟨rfl, rfl⟩
   | recover sh k ih =>
+    intro a anc self w
+    simp only [execBodyY]
+    have key : ∀ (c : Bool) (s' : Frame) (w' : World),
+        (execBodyY F cf k a (if c = true then { anc with recovered := none } else anc) s' w').2.1.deferred = anc.deferred ∧
+        (execBodyY F cf k a (if c = true then { anc with recovered := none } else anc) s' w').2.1.locked = anc.locked := by
+      intro c s' w'
+      cases c
+      · exact ih a anc s' w'
+      · exact ih a { anc with recovered := none } s' w'
+    exact key _ _ _
+  | recoverIs v k ih =>
     intro a anc self w
     simp only [execBodyY]
     have key : ∀ (c : Bool) (s' : Frame) (w' : World),
@@ -302,10 +375,10 @@ theorem execBodyY_anc (F : UnwindFacts) (cf : CallFn) :
     simp only [execBodyY]
     have key : ∀ (c : Bool) (r : Option Val) (s' : Frame),
         (match r with
-          | some v => ((Sig.panic (if F.panicPassesValue = true then .re v else v), (if c = true then { anc with recovered := none } else anc), s', w) : Sig × Frame × Frame × World)
+          | some v => ((Sig.panic (reraised F v), (if c = true then { anc with recovered := none } else anc), s', w) : Sig × Frame × Frame × World)
           | none => execBodyY F cf k a (if c = true then { anc with recovered := none } else anc) s' w).2.1.deferred = anc.deferred ∧
         (match r with
-          | some v => ((Sig.panic (if F.panicPassesValue = true then .re v else v), (if c = true then { anc with recovered := none } else anc), s', w) : Sig × Frame × Frame × World)
+          | some v => ((Sig.panic (reraised F v), (if c = true then { anc with recovered := none } else anc), s', w) : Sig × Frame × Frame × World)
           | none => execBodyY F cf k a (if c = true then { anc with recovered := none } else anc) s' w).2.1.locked = anc.locked := by
       intro c r s'
       cases r with
